@@ -55,24 +55,30 @@ peg::parser! {
             ['\\'] [c] { c.to_string() }
 
         rule bracket_expression() -> String =
-            "[" invert:(invert_char()?) members:bracket_member()+ "]" {
-                let mut members = members.into_iter().flatten().collect::<Vec<_>>();
+            // N.B. A `]` right after the opening bracket (or after the inversion character) is a
+            // literal member of the set rather than the end of the expression.
+            "[" invert:(invert_char()?) leading:("]" { String::from(r"\]") })? members:bracket_member()* "]" {?
+                if leading.is_none() && members.is_empty() {
+                    return Err("bracket expression member");
+                }
+
+                let mut members = leading.into_iter().chain(members.into_iter().flatten()).collect::<Vec<_>>();
 
                 // If we completed the parse but ended up with no valid members
                 // of the bracket expression, then return a regex that matches nothing.
                 // (Or in the inverted case, matches everything.)
                 if members.is_empty() {
                     if invert.is_some() {
-                        String::from(".")
+                        Ok(String::from("."))
                     } else {
-                        String::from("(?!)")
+                        Ok(String::from("(?!)"))
                     }
                 } else {
                     if invert.is_some() {
                         members.insert(0, String::from("^"));
                     }
 
-                    std::format!("[{}]", members.join(""))
+                    Ok(std::format!("[{}]", members.join("")))
                 }
             }
 
